@@ -10,10 +10,20 @@
    that the descriptor loop (mir-interp.c:1800-1821) runs.  checks="memsafe": every write must stay inside the
    block the allocator returned (exact-size allocator below, so CBMC's bounds check / ASan see the real sizes).
    The path is ended inside get_ff_interface() at its first hash-table probe (the table's hash function is a
-   harness function): everything the property talks about has happened by then. */
+   harness function): everything the property talks about has happened by then.
+
+   -DH_F7_VARIADIC: the same set-up with capacity 8 (no growth) checks the part of call() that the ff leg (ff.c, pre-filled
+   ffi slot) does not execute: the derivation of the argument descriptors handed to _MIR_get_ff_call for a variadic
+   prototype  p (i32 a, ...)  called with (a, int, double, long double, blk2:16 block): the named descriptor comes
+   from the prototype, the unnamed ones from the operands' value modes / memory type and size (mir-interp.c:1800-1821). */
 #include "h.h"
 #include "mir.c"
 
+#ifdef H_F7_VARIADIC
+#define H_F7_CAP 8
+#define H_F7_NARGS 5
+#define H_F7_NNAMED 1
+#endif
 #ifndef H_F7_CAP
 #define H_F7_CAP 2
 #endif
@@ -22,6 +32,9 @@
 #endif
 #ifndef H_F7_NRES
 #define H_F7_NRES 0
+#endif
+#ifndef H_F7_NNAMED
+#define H_F7_NNAMED H_F7_NARGS
 #endif
 
 /* exact-size allocator (all sizes are concrete in this harness) */
@@ -70,6 +83,14 @@ static htab_hash_t h_hash_stop (ff_interface_t i, void *arg) {
   H_ASSERT (VARR_CAPACITY (_MIR_arg_desc_t, call_arg_descs_varr) >= H_F7_NARGS, "call_arg_descs holds nargs descriptors");
   H_ASSERT (call_res_args == VARR_ADDR (MIR_val_t, call_res_args_varr)
               && call_arg_descs == VARR_ADDR (_MIR_arg_desc_t, call_arg_descs_varr), "cached array addresses are current");
+#ifdef H_F7_VARIADIC
+  H_ASSERT (i->arg_vars_num == 1 && i->nres == H_F7_NRES, "get_ff_interface receives the number of named parameters and results");
+  H_ASSERT (i->arg_descs[0].type == MIR_T_I32, "descriptor of the named parameter is the prototype's type");
+  H_ASSERT (i->arg_descs[1].type == MIR_T_I64, "unnamed integer operand -> i64 descriptor");
+  H_ASSERT (i->arg_descs[2].type == MIR_T_D, "unnamed double operand -> d descriptor");
+  H_ASSERT (i->arg_descs[3].type == MIR_T_LD, "unnamed long double operand -> ld descriptor");
+  H_ASSERT (i->arg_descs[4].type == MIR_T_BLK + 2 && i->arg_descs[4].size == 16, "unnamed block operand -> its block type and size");
+#endif
   H_WITNESS ("descriptor loop finished, get_ff_interface reached");
 #if H_CBMC
   __CPROVER_assume (0);
@@ -87,7 +108,7 @@ void harness (void) {
   static struct MIR_proto proto;
   static struct MIR_item proto_item;
   static MIR_var_t vars[H_F7_NARGS];
-  static VARR (MIR_var_t) vars_varr = {H_F7_NARGS, H_F7_NARGS, vars, NULL};
+  static VARR (MIR_var_t) vars_varr = {H_F7_NNAMED, H_F7_NARGS, vars, NULL};
   static MIR_type_t res_types[H_F7_NRES + 1];
   static MIR_op_t ops[H_F7_NARGS];
   MIR_val_t bp[H_F7_NRES + 2], ffi, res_ops[H_F7_NRES + 1];
@@ -104,7 +125,14 @@ void harness (void) {
   HTAB_CREATE_WITH_FREE_FUNC (ff_interface_t, ff_interface_tab, alloc, 2, h_hash_stop, ff_interface_eq, NULL, NULL);
   for (int i = 0; i < H_F7_NARGS; i++) { vars[i].type = MIR_T_I64; vars[i].name = "a"; vars[i].size = 0; arg_vals[i].u = nd (); }
   for (int i = 0; i < H_F7_NRES; i++) { res_types[i] = MIR_T_I64; res_ops[i].i = 1 + i; }
-  proto.name = "p"; proto.nres = H_F7_NRES; proto.res_types = res_types; proto.vararg_p = 0; proto.args = &vars_varr;
+  proto.name = "p"; proto.nres = H_F7_NRES; proto.res_types = res_types; proto.vararg_p = H_F7_NNAMED != H_F7_NARGS; proto.args = &vars_varr;
+#ifdef H_F7_VARIADIC
+  vars[0].type = MIR_T_I32;
+  ops[1].mode = MIR_OP_REG; ops[1].value_mode = MIR_OP_INT;
+  ops[2].mode = MIR_OP_REG; ops[2].value_mode = MIR_OP_DOUBLE;
+  ops[3].mode = MIR_OP_REG; ops[3].value_mode = MIR_OP_LDOUBLE;
+  ops[4].mode = MIR_OP_MEM; ops[4].u.mem.type = MIR_T_BLK + 2; ops[4].u.mem.disp = 16;
+#endif
   proto_item.item_type = MIR_proto_item; proto_item.u.proto = &proto;
   ffi.a = NULL; /* first execution of this call insn: descriptors are computed, then the interface is looked up */
 
